@@ -58,6 +58,12 @@ func c07Subjects() []c07Subject {
 		c07Subject{"ret(nil)", false, false}, c07Subject{"ret(0)", true, false}, c07Subject{`ret("")`, false, false},
 		c07Subject{`raw("")`, false, false}, c07Subject{`raw("x")`, true, false},
 		c07Subject{`uf("")`, false, false}, c07Subject{"uf(0)", true, false}, c07Subject{"uf(false)", false, false},
+		// a typed nil pointer is falsy by whatever route it reaches the test
+		c07Subject{"ret(k_npst)", false, false}, c07Subject{"uf(k_npst)", false, false},
+		c07Subject{"nps[0]", false, false}, c07Subject{"nps[1]", true, false},
+		c07Subject{`npm["k"]`, false, false}, c07Subject{`npm["p"]`, true, false},
+		c07Subject{"retp()", false, false}, c07Subject{"k_pst.NilKid.NilKid", false, false},
+		c07Subject{"[k_npst][0]", false, true}, c07Subject{`{"k": k_npst}["k"]`, false, true},
 	)
 	return s
 }
@@ -88,6 +94,9 @@ func c07Context(log *[]int) *plush.Context {
 	c.Set("one", []int{7})
 	c.Set("two", []int{7, 8})
 	c.Set("ret", func(v interface{}) interface{} { return v })
+	c.Set("retp", func() *Person { return nil })
+	c.Set("nps", []*Person{nil, {Name: "P"}})
+	c.Set("npm", map[string]*Person{"k": nil, "p": {Name: "P"}})
 	c.Set("c", func(i int, v interface{}) interface{} {
 		*log = append(*log, i)
 		return v
@@ -117,7 +126,7 @@ func init() {
 			}
 			for k := 0; k <= maxK; k++ {
 				for _, e := range []string{"else", "noelse"} {
-					for _, style := range []string{"text", "return"} {
+					for _, style := range []string{"text", "return", "sparse"} {
 						s = append(s, fmt.Sprintf("chain:%d:%s:%s", k, e, style))
 					}
 				}
@@ -125,7 +134,7 @@ func init() {
 			return s
 		},
 		Run:  c07Run,
-		Rule: "matrix: 93 subjects (61 injected value kinds incl. nil pointer/map/slice/func and empty HTML, unknown identifier, literals, field/index/helper/user-function results) x 14 syntactic contexts (if, silent if, else-if, !, !!, && and || on either side, if(!x), if(x && 1), inside for / fn / helper block): every context must report the truth value given by the statement's table (which makes them agree with each other). chains: if + k else-if (+ else), k<=3, every assignment of condition values from {true,false,0,\"\",\"a\",nil} through a counting helper plus the bare conditions nope / !nope (unknown identifier), blocks as text or as return, at top level, inside for / fn / helper block and evaluated twice (loop of two iterations, function called twice): exactly the first truthy block (or else / nothing) is rendered and conditions 0..j are evaluated once each, none after j. ill-formed chains (a second else, or an else if, after the else block): an error or the textually first truthy block, never a later part. Non-trivial: all cases.",
+		Rule: "matrix: 93 subjects (61 injected value kinds incl. nil pointer/map/slice/func and empty HTML, unknown identifier, literals, field/index/helper/user-function results) x 14 syntactic contexts (if, silent if, else-if, !, !!, && and || on either side, if(!x), if(x && 1), inside for / fn / helper block): every context must report the truth value given by the statement's table (which makes them agree with each other). chains: if + k else-if (+ else), k<=3, every assignment of condition values from {true,false,0,\"\",\"a\",nil} through a counting helper plus the bare conditions nope / !nope (unknown identifier), blocks as text, as return, or with every second block empty, at top level, inside for / fn / helper block and evaluated twice (loop of two iterations, function called twice): exactly the first truthy block (or else / nothing) is rendered and conditions 0..j are evaluated once each, none after j. ill-formed chains (a second else, or an else if, after the else block): an error or the textually first truthy block, never a later part. Non-trivial: all cases.",
 		Bound: func(th bool) string {
 			return "matrix complete; chains with up to 3 else-if branches, 8 condition values, 6 placements, 2 block styles"
 		},
@@ -188,6 +197,7 @@ func c07Run(t *engine.T, shard string) {
 	fmt.Sscan(parts[1], &k)
 	hasElse := parts[2] == "else"
 	ret := parts[3] == "return"
+	sparse := parts[3] == "sparse" // every second block is empty: an empty block still ends the chain
 	nc := k + 1
 	total := 1
 	for i := 0; i < nc; i++ {
@@ -210,6 +220,9 @@ func c07Run(t *engine.T, shard string) {
 		}
 		var sb strings.Builder
 		blockOf := func(name string) string {
+			if sparse && (name == "B1" || name == "B3" || name == "E") {
+				return ` `
+			}
 			if ret {
 				return ` return "` + name + `" `
 			}
@@ -244,6 +257,9 @@ func c07Run(t *engine.T, shard string) {
 			upto = first + 1
 		} else if hasElse {
 			want = "E"
+		}
+		if sparse && (want == "B1" || want == "B3" || want == "E") {
+			want = ""
 		}
 		var wantLog []int // counted conditions among 0..first
 		for i := 0; i < upto; i++ {
